@@ -242,7 +242,7 @@ ADDENDA = {
     "C17": "By model extraction: (R17.6) the str.format template parser and _str_format_impl are interpreted from their AST for every template of <= 4 (quick) / 5 (thorough) characters over an 11-symbol alphabet plus 37 longer templates x 5 argument shapes; a diagnostic is shown whenever CPython's own str.format raises a template or missing-argument error on universal argument values and none (outside two listed stricter rules) when it formats. Also decides: (R17.4) truth table of argument consumption for `*` width / `*` precision / %%; (R17.5) a .format field name is an index exactly under isdecimal(), never by trial int(); (R17.7) the %-format checker (parsing regex, lint, accept for tuple and mapping operands) interpreted on ~540 str / bytes templates x 23 literal operands and compared with CPython evaluating the same expression: reported iff CPython raises, outside three documented stricter rules.",
     "C18": "Also decides, by model extraction: (R18.6) the whole layering pipeline (parse_config_file, _parse_config_section, option parse / is_applicable_to / sort_key / get_value_from_instances, Options.from_option_list / get_value_for) is interpreted from its AST on stacks of up to 3 chained files x command-line values x 6 queried modules; every effective value equals the documented layering for a boolean, an integer and a concatenated list option and for disable_all, and 18 malformed configurations each raise InvalidConfigOption. Round 4: (R18.7) = C10 R10.7; include paths of the model are unresolved aliases, so recursion must be detected on resolved paths.",
     "C19": "Also decides: (R19.3) constant-index range test and scan positions, folded over a finite grid; (R19.4) the literal result comes from performing the operation for this call (a call of the callee dominates every return of a helper); by model extraction: (R19.5) visit_UnaryOp / visit_BinOp / _visit_binop_internal / _visit_binop_no_mvv interpreted over 12 literal operands x 16 operators against CPython evaluating the same expression (with _check_dunder_call given its documented contract); (R19.6) attribute lookup on known objects (get_attribute, _get_attribute_from_known, the known-attribute hook, _get_attribute_from_mro) against CPython's getattr.",
-    "C20": "By model extraction: (R20.7) EvaluateVisitor, ConditionEvaluator, ConditionReturn.reverse, CombinedReturn.make, EvalContext.narrow_variables, decompose_union, can_assign_maybe_exclude_any and unite_varmaps are interpreted from their AST on 381 generated evaluator bodies (real ast trees) x 10 x 2 argument types x argument kinds: the result equals the union of the results for each member of a union argument evaluated separately and show_error fires exactly in the branches some member executes (two union arguments: nothing is lost). Also decides: (R20.5) version/platform conditions compare sys.<attr> itself; (R20.6) unite_varmaps does not read an absent entry as Never unless keys are intersected. Round 4: a str | Any argument (a union with an Any member and a member outside the tested type) is in the R20.7 domain.",
+    "C20": "By model extraction: (R20.7) EvaluateVisitor, ConditionEvaluator, ConditionReturn.reverse, CombinedReturn.make, EvalContext.narrow_variables, decompose_union, can_assign_maybe_exclude_any and unite_varmaps are interpreted from their AST on 381 generated evaluator bodies (real ast trees) x 10 x 2 argument types x argument kinds: the result equals the union of the results for each member of a union argument evaluated separately and show_error fires exactly in the branches some member executes (two union arguments: nothing is lost). Also decides: (R20.5) version/platform conditions compare sys.<attr> itself; (R20.6) unite_varmaps does not read an absent entry as Never unless keys are intersected. Round 4: a str | Any argument (a union with an Any member and a member outside the tested type) is in the R20.7 domain. (R20.8) the call model with a recording evaluator: an omitted argument whose default is `...` reaches the evaluator with the annotation's type, one with a literal default as that literal, with position DEFAULT.",
 }
 
 NOT_YET = {}
